@@ -101,6 +101,10 @@ type Case struct {
 	// classes; no oracle reads them.
 	Tags []string `json:"tags,omitempty"`
 
+	// Half is a stream of the same construction as Body with half as many
+	// items (symbols, scans, ...); see oracle 11 (scaling).
+	Half gen.Hex `json:"half,omitempty"`
+
 	// ProgScans is set for progressive JPEGs from the harness's own builder:
 	// the number of scans which each visit every block of the (single)
 	// component.  It drives the work oracle (see progPassLimit).
@@ -132,6 +136,7 @@ type observation struct {
 	stage3     int
 	elapsed    time.Duration
 	dElapsed   time.Duration
+	scaled     bool  // oracle 11 compared two sizes
 	pulled     int64 // bytes a buffering top layer pulled from the layer below (-1: not measured)
 	totalAlloc uint64
 }
@@ -891,6 +896,26 @@ func checkCase(c *Case) error {
 		return fmt.Errorf("%s: progressive JPEG of %d bytes with %d scans over every block decoded to the end: the documented limit is %d passes (jpeg.maxProgPasses)",
 			what, len(raw), c.ProgScans, progPassLimit)
 	}
+	// oracle 11 (scaling): "terminates in time proportional to input plus
+	// produced output".  The generator supplies the same construction with
+	// half as many items; if both decode, the cumulative allocation (every
+	// allocated byte is at least cleared, so it is a clock-free measure of
+	// work) may at most triple when the input doubles.  Linear work gives a
+	// factor of 2, quadratic work a factor of 4.
+	if len(c.Half) > 0 && dres.openErr == nil && dres.readErr == nil && dres.eof {
+		half := []byte(c.Half)
+		hres, halloc, _, err := measured(c, what+" (half size)", func() (runResult, error) { return runDirect(c, name, pd, half, dlimit) })
+		if err != nil {
+			return err
+		}
+		if hres.openErr == nil && hres.readErr == nil && hres.eof {
+			ob.scaled = true
+			if dalloc > 3*halloc+4<<20 {
+				return fmt.Errorf("%s: %d bytes of input allocate %d bytes in total, half the items (%d bytes of input) allocate %d: doubling the input multiplies the work by %.1f (linear: 2, allowed: 3)",
+					what, len(raw), dalloc, len(half), halloc, float64(dalloc)/float64(halloc))
+			}
+		}
+	}
 	// a single filter reading the raw bytes: its working memory is what the
 	// budget accounts for; 2 MiB for decoder state that is not charged
 	// (inflate window, Huffman tables, bufio) and copies of the input
@@ -1132,6 +1157,9 @@ func classify(c *Case) (bool, []string) {
 		if c.ProgScans > progPassLimit+1 {
 			add("prog-scans>limit")
 		}
+	}
+	if ob.scaled {
+		add("scaling-judged")
 	}
 	if ob.pulled >= 0 {
 		add("layered-jbig2")
